@@ -9,8 +9,20 @@ Specs: specs/tpt/Committor.tla (+ common/Rational.tla), specs/tpt/Trace_Committo
     ones, solve, lag / populations, fundamental matrix, inverse, formula) in exact
     rational arithmetic; checks the first-step invariants on all of them and prints
     the exact expected values.  The driver replays every printed case into the real
-    tpt.committors / tpt.mfpts with dense, csr, lil and csc containers and compares
-    at 1e-9 relative; inputs must be bitwise unchanged.
+    tpt.committors / tpt.mfpts with dense (C, Fortran, strided), csr, lil and csc
+    containers and compares at 1e-9 relative per entry; inputs must be bitwise
+    unchanged.  Sources and sinks are SETS in the specification: every case is also
+    replayed with another listing of them (reversed, rotated, list / tuple / int16 /
+    int32 / uint16 / strided int64 arrays: FORMS).
+(A, large chains)  LineChain.tla: reversible nearest-neighbour chains with about a
+    thousand states (999, 1000, 1001, 1200: on both sides of the size at which the
+    library switches algorithms elsewhere), periodic edge / self weights with single
+    overrides, several sources and sinks in the interior.  Their committors and mean
+    first-passage times have closed forms (series resistances); TLC checks the first-
+    step equations on them at every state (BigNat rationals, linear time) and prints
+    them; the driver replays them with ndarray (C / F), csr, csc, lil, coo, dok
+    matrices and csr / lil sparse arrays, one listing of the sets per container, and
+    requires every argument (sparse index / data arrays, LIL rows) to be unchanged.
 (B) code -> spec.  Random irreducible chains with 5..8 states (reversible or not)
     and the chains of the pinned test-suite go through the real code, the outputs
     are logged as scaled integers and Trace_Committor.tla evaluates the first-step
@@ -787,7 +799,10 @@ def run(ctx):
     ctx.rule = ("(A) TLC enumerates every irreducible integer chain A/D in scope x mode (committors: every disjoint "
                 "non-empty source/sink pair; mfpts to sinks: every non-empty sink set x lag; all-pairs: lag); "
                 "distinct by (A, mode, sources, sinks, lag); non-trivial when at least one state is neither source "
-                "nor sink. (B) random irreducible chains with 5..8 states, distinct by matrix")
+                "nor sink. (A, large) LineChain.tla: nearest-neighbour chains with 999..1200 states x placements of "
+                "several sources / sinks (committors, mfpts to the sinks, columns of the all-pairs table), and every "
+                "placement for 2..5 states; replayed with 9 containers and 10 listings (order, integer container) of "
+                "the source / sink sets. (B) random irreducible chains with 5..8 states, distinct by matrix")
     ctx.assumptions += ["exact scope: n <= 5 states with at most 4 non-absorbing states, row sums D <= 6",
                         "(B) accepts outputs within 1e-6 (committors) / 1 unit of the 4th decimal (mfpts, scale "
                         "reduced for large values) of the first-step relations",
